@@ -58,6 +58,8 @@ def expand(kv):
             out[pre + "class"] = p[1]
             out[pre + ("value" if p[0] == "E" else "truth")] = p[2]
             out[pre + "trace"], out[pre + "vars"], out[pre + "scopes"], out[pre + "residue"] = p[3], p[4], p[5], p[6]
+            if len(p) > 7 and p[7]:
+                out[pre + "inspect"] = p[7]
         elif p[0] == "G":
             out[pre + "get"] = p[1]
         elif p[0] == "U":
@@ -106,7 +108,7 @@ class Prop:
     compare_obs = ()
     property_obs = ()
     compare_run = False          # compare every o<k>.<obs> of run cases
-    ignore_obs = ()              # observable suffixes not compared at all
+    ignore_obs = ("inspect",)    # observable suffixes not compared between Go and model
     rule = ""
     def cases(self, rng, tier):
         return []
